@@ -609,6 +609,28 @@ impl Check for C10 {
                     cases.push(Case::new(format!("u := {}\nv := {}\nw := {}\nprint(v == w)\nprint(w == v)\nprint(v != w)\nprint(u)\nprint(v)\n", u, wrap, wrap), 10, format!("two holders of u = {} as {}", u, wrap)));
                 }
             }
+            // a comparison depends on the contents at the moment it is evaluated: compare, change one
+            // operand through every kind of write, compare again in both orders
+            for (val, writes) in [
+                ("[1, [2], 3]", vec!["a[0] = 9", "a[0:1] = [9]", "a[1][0] = 9", "a[1:2] = [[9]]", "a[2] += 1", "[a[0]] = [9]", "for [i, e] in [0] {\na[i] = 9\n}", "al := a\nal[0] = 9", "setf(a)", "a[0:3] = [1, [2], 4]", "a[1] += [1]"]),
+                ("{\"k\": 1, \"l\": [2]}", vec!["a.k = 9", "a[\"k\"] = 9", "a.l[0] = 9", "a.k += 1", "{\"z\": a.k} = {\"z\": 9}", "al := a\nal.k = 9", "a.n = 1", "seto(a)", "a.l[0:1] = [9]", "a.l += [1]"]),
+            ] {
+                for w in writes {
+                    cases.push(Case::new(
+                        format!("fn setf(p) {{\np[0] = 9\n}}\nfn seto(p) {{\np.k = 9\n}}\na := {}\nb := {}\nprint(a == b)\nprint(b == a)\nprint(a != b)\n{}\nprint(a == b)\nprint(b == a)\nprint(a != b)\nprint(b != a)\nprint([a] == [b])\nc := {}\nprint(a == c)\n", val, val, w, val),
+                        10,
+                        format!("comparison before and after the write {:?} on {}", w.replace('\n', "; "), val),
+                    ));
+                }
+            }
+            // functions: the same function value reached along different routes is `===` itself
+            cases.push(Case::new("fn f() {\nreturn 1\n}\no := {\"f\": f, \"id\": 1}\np := {\"f\": o.f}\ng := o.f\nxs := [f, o.f]\nprint(o.f === f)\nprint(g === f)\nprint(p.f === o.f)\nprint(xs[0] === xs[1])\nprint(f !== g)\nprint(o[\"f\"] === p.f)\nh := fn () {\nreturn 1\n}\nprint(h === f)\nprint(h === h)\n".to_string(), 10, "one function value reached along several routes".to_string()));
+            // literals written directly on both sides, interpolated ones included
+            for (l, r2) in [("$\"Hello ${n}\"", "\"Hello Jo\""), ("\"Hello Jo\"", "$\"Hello ${n}\""), ("$\"${n}\"", "\"\\${n}\""), ("$\"${n}\"", "$\"${n}\""), ("\"a\"", "\"a\""), ("\"a\"", "\"b\""), ("[1, \"a\"]", "[1, \"a\"]"), ("{\"k\": $\"${n}\"}", "{\"k\": \"Jo\"}"), ("1", "\"1\""), ("$\"${n}\"", "1")] {
+                for op in ["==", "!="] {
+                    cases.push(Case::new(format!("n := \"Jo\"\nprint(\"pre\")\nprint({} {} {})\n", l, op, r2), 10, format!("literals compared directly: {} {} {}", l, op, r2)));
+                }
+            }
             ctx.judge(cases, |c, r, o| {
                 if !matches!(o.class, Class::Ok | Class::Err) {
                     return viol("crash", format!("{}: {:?}", c.meta, o.class));
